@@ -119,6 +119,18 @@ def match_from_key(key, r, keep=0.5, exact=False):
   return m
 
 
+def vary_dont_care(m, r):
+  """the same match with other values in the address bits below the prefix
+  length (which do not count)"""
+  m = dict(m)
+  for f in ("nw_src", "nw_dst"):
+    bits = m.get(f + "_bits", 0)
+    if f in m and 0 < bits <= 32:
+      low = (1 << bits) - 1
+      m[f] = (m[f] & ~low & 0xffffffff) | (r.getrandbits(32) & low)
+  return m
+
+
 def perturb(m, r):
   """make a near-miss: change one fixed field's value"""
   m = dict(m)
@@ -210,5 +222,7 @@ def sw_cfg(r, **over):
     "recv_mode": r.pick(["all", "all", "choose", "dribble"]),
     "segment": r.chance(0.3),
   }
+  cfg["ports_admin_down"] = [r.randint(1, cfg["nports"])] \
+      if r.chance(0.15) else []
   cfg.update(over)
   return cfg
